@@ -4295,6 +4295,12 @@ impl SchedulerCoordinator {
                     .ok_or(RuntimeError::UnknownWorldline(key.worldline_id))?
                     .frontier_tick();
                 let parents = provenance.tip_ref(key.worldline_id)?.into_iter().collect();
+                #[cfg(feature = "echo_verif")]
+                {
+                    if crate::verif::failpoint::hit("coord.before_engine_commit") {
+                        return Err(RuntimeError::UnknownHead(*key));
+                    }
+                }
 
                 #[cfg(all(feature = "native_rule_bootstrap", feature = "trusted_runtime"))]
                 // `HeadInbox::admit_partitioned` guarantees that one admitted
@@ -4403,6 +4409,14 @@ impl SchedulerCoordinator {
                         .map_err(RuntimeError::from)?
                 };
                 let tick_receipt_digest = receipt.digest();
+                #[cfg(feature = "echo_verif")]
+                {
+                    if crate::verif::failpoint::hit("coord.after_engine_commit") {
+                        return Err(RuntimeError::Engine(EngineError::InternalCorruption(
+                            "echo_verif failpoint: coord.after_engine_commit",
+                        )));
+                    }
+                }
 
                 let (state_root, worldline_tick_after) = {
                     let frontier = runtime
@@ -4447,6 +4461,16 @@ impl SchedulerCoordinator {
                     )
                     .with_tick_receipt(receipt);
                     provenance.append_local_commit(entry)?;
+                    #[cfg(feature = "echo_verif")]
+                    {
+                        if crate::verif::failpoint::hit("coord.after_provenance_append") {
+                            return Err(RuntimeError::Provenance(
+                                HistoryError::HistoryUnavailable {
+                                    tick: worldline_tick,
+                                },
+                            ));
+                        }
+                    }
                     frontier.state_mut().record_committed_ingress(
                         *key,
                         admitted.iter().map(IngressEnvelope::ingress_id),
@@ -4454,6 +4478,12 @@ impl SchedulerCoordinator {
                     let worldline_tick_after = frontier
                         .advance_tick()
                         .ok_or(RuntimeError::FrontierTickOverflow(key.worldline_id))?;
+                    #[cfg(feature = "echo_verif")]
+                    {
+                        if crate::verif::failpoint::hit("coord.after_frontier_advance") {
+                            return Err(RuntimeError::FrontierTickOverflow(key.worldline_id));
+                        }
+                    }
                     (snapshot.state_root, worldline_tick_after)
                 };
                 committed_correlations.extend(runtime.record_receipt_correlations(
@@ -4467,6 +4497,14 @@ impl SchedulerCoordinator {
                     },
                     &mut receipt_correlation_rollback,
                 )?);
+                #[cfg(feature = "echo_verif")]
+                {
+                    if crate::verif::failpoint::hit("coord.after_correlation_record") {
+                        return Err(RuntimeError::ReceiptCorrelationReplayMismatch(
+                            tick_receipt_digest,
+                        ));
+                    }
+                }
 
                 Ok(StepRecord {
                     head_key: *key,
